@@ -174,7 +174,7 @@ def evaluate(ctx, cases):
                 import subprocess
                 ctx.count("python -m jsonpath")
                 pr = subprocess.run([sys.executable, "-m", "jsonpath"] + argv, input=stdin_data if stdin_data is not None else None, capture_output=True, timeout=60,
-                                    env={**os.environ, "PYTHONPATH": "/repo"})
+                                    env={**os.environ, "PYTHONPATH": core.REPO})
                 sub = (pr.returncode, pr.stdout.decode("utf-8", "replace"), len(pr.stderr.decode("utf-8", "replace").splitlines()))
                 here = (status, out, len(err.splitlines()))
                 if exc is None and sub != here:
